@@ -5,6 +5,7 @@ both are defined.  Both sides are tables regenerated from the source on every ru
 import DsdVerif.Gen.LegacyIupac
 import DsdVerif.Spec.Iupac
 import DsdVerif.Props.C20Legacy
+import DsdVerif.Props.C20Wrappers
 
 namespace Dsd.C20
 open Dsd.Iupac
